@@ -89,7 +89,7 @@ class CompArea:
 def build(img, *, cluster_bits, K=1, version=3, header_length=104, host_shift=0, l2_shift=0, copied=True, backing_name=None,
           comp_maximal=False, comp_base_cluster=None, file_id=0, data_fid=1, snapshots=(), extra_ext=(), name=None,
           incompat_extra=0, compression_type=None, crypt=0, size_bytes=None, reserved_l1_bits=0, l1_pad=0, lazy_desc=True,
-          meta_base=2, snap_table=None, comp_level=6, want_extents=False, datafile_ext=True, backing_fmt_ext=True, end_marker=True):
+          meta_base=2, snap_table=None, comp_level=6, want_extents=False, datafile_ext=True, backing_fmt_ext=True, end_marker=True, l1_garbage=False):
     """img: abstract Qcow2 image {"ext","datafile","l2n","s","l1","l2","back","size"}; K real clusters per abstract
     cluster.  Returns (image VirtualFile, data VirtualFile|None, info)."""
     cs = 1 << cluster_bits
@@ -124,7 +124,11 @@ def build(img, *, cluster_bits, K=1, version=3, header_length=104, host_shift=0,
         v = ((l2_cluster0 + t) * cs) | (COPIED if copied else 0) | reserved_l1_bits if img["l1"][t] else 0
         l1.append(v)
     l1 += [0] * l1_pad
-    exts.append((l1_cluster * cs, nl1_real * 8, "bytes", struct.pack(f">{nl1_real}Q", *l1)))
+    l1_bytes = struct.pack(f">{nl1_real}Q", *l1)
+    if l1_garbage:
+        # stale bytes behind the L1 table (e.g. of a longer, older table): plausible L1 entries that must never be followed
+        l1_bytes += struct.pack(">QQ", ((l2_cluster0) * cs) | COPIED, ((l2_cluster0) * cs) | COPIED)
+    exts.append((l1_cluster * cs, len(l1_bytes), "bytes", l1_bytes))
     # L2 tables
     for t in range(nl1):
         if not img["l1"][t]:
